@@ -150,7 +150,8 @@ def run_property(pid, tier='quick', seed=0, out=sys.stdout):
         rp = None
         if hasattr(mod, 'replay'):
             try:
-                rp = mod.replay(r, tier, seed)
+                smt2 = next((s2 for n2, s2, m2 in H.obls if n2 == r['name']), None)
+                rp = mod.replay(r, tier, seed, smt2)
             except Exception:
                 rp = {'error': traceback.format_exc()[-800:]}
         failing = (rp or {}).get('failing_input')
@@ -233,6 +234,7 @@ def run_property(pid, tier='quick', seed=0, out=sys.stdout):
         'rule': 'stand-in cases are (configuration, operator, ordered key tuples); distinct = distinct such tuples; '
                 'the counts of obligations/discharged are the deductive part',
         'known_findings_reported': sorted(seen_k),
+        'inlined_helpers': list(H.notes),
         'checker_faults': faults,
     }
     if downgraded:
